@@ -339,7 +339,7 @@ class LoopMixin:
                 work.extend(st2.dctx[0].alts)
                 max_counter = max(max_counter, next(_values._fresh))
                 delta = [c for i, c in enumerate(st2.pc) if i >= n_pc0 and i not in st2.assumed]
-                facts = [c for i, c in enumerate(st2.pc) if i >= n_pc0 and i in st2.assumed and not z3.is_quantifier(c)]
+                facts = [c for i, c in enumerate(st2.pc) if i >= n_pc0 and i in st2.assumed]
                 results.append(dict(outcome=outcome, payload=payload, cond=z3.And(*delta) if delta else TRUE, st=st2, env=env2,
                                     effects=st2.effects[n_eff0:], facts=facts))
                 if len(results) > 400:
